@@ -159,7 +159,9 @@ fn slices_str<B: Backend>(cx: &mut Ctx, bk: &str, lens: &[usize], reprs: &[Repr]
         let content: &'static str = Box::leak(str_content(len).into_boxed_str());
         assert_eq!(content.len(), len);
         // interior positions of multi-byte characters are interesting cut points
-        let interior: Vec<usize> = (0..=len).filter(|&i| !content.is_char_boundary(i)).take(4).collect();
+        // (one position per distinct continuation byte value, so that both ends of 0x80..=0xBF are cut)
+        let mut seen_vals = std::collections::BTreeSet::new();
+        let interior: Vec<usize> = (0..=len).filter(|&i| !content.is_char_boundary(i) && seen_vals.insert(content.as_bytes()[i])).take(12).collect();
         let bounds = bounds_for(len, &interior);
         for &repr in reprs {
             let Some(hb) = make_byt::<B>(content.as_bytes(), repr) else { continue };
